@@ -46,7 +46,10 @@ template<class T> static void run(Rng& g, int n) {
 		{ T tl = it % 4 == 0 ? (T)0 : it % 4 == 1 ? (T)1 : (T)g.real(0, 1); glm::tdualquat<T> dx(x, y), dy(it % 2 ? y : -y, x); count("dual_lerp" + ty); auto r = glm::lerp(dx, dy, tl); LD sg = qdot(X, toL(dy.real)) < 0 ? -1 : 1; Q4 Yr = toL(dy.real), Yd = toL(dy.dual), Xd = toL(y);
 		  Q4 Er{X.w * (1 - (LD)tl) + sg * Yr.w * tl, X.x * (1 - (LD)tl) + sg * Yr.x * tl, X.y * (1 - (LD)tl) + sg * Yr.y * tl, X.z * (1 - (LD)tl) + sg * Yr.z * tl}, Ed{Xd.w * (1 - (LD)tl) + sg * Yd.w * tl, Xd.x * (1 - (LD)tl) + sg * Yd.x * tl, Xd.y * (1 - (LD)tl) + sg * Yd.y * tl, Xd.z * (1 - (LD)tl) + sg * Yd.z * tl};
 		  if (fabsl(qdot(X, Yr)) > 1e-4L && !(qdiff(toL(r.real), Er) <= 8 * eps && qdiff(toL(r.dual), Ed) <= 8 * eps)) fail("dual_lerp" + ty, tl == 0 || tl == 1 ? "end point" : "value", in + " a=" + str((double)tl), "x(1-a) +- y a", qs(r.real)); }
-		{ count("shortMix" + ty); auto r = glm::shortMix(x, y, t); Q4 R = toL(r); Q4 E = ref_slerp(X, Y, t, 0, true); bool nan = !(R.w == R.w); if (nan) fail("shortMix" + ty, std::string(cn[cls]) + ":nan", in, "finite", qs(r)); else if (t == 0 && !(qdiff(R, X) <= 64 * eps)) fail("shortMix" + ty, "t=0", in, qs(x), qs(r)); (void)E; }
+		{ count("shortMix" + ty); auto r = glm::shortMix(x, y, t); Q4 R = toL(r); Q4 E = ref_slerp(X, Y, t, 0, true); bool nan = !(R.w == R.w); if (nan) fail("shortMix" + ty, std::string(cn[cls]) + ":nan", in, "finite", qs(r)); else if (t == 0 && !(qdiff(R, X) <= 64 * eps)) fail("shortMix" + ty, "t=0", in, qs(x), qs(r));
+		  else if (t > 0 && t < 1 && fabsl(qdot(X, Y)) >= 64 * eps) { LD ts = 64 * eps * 2 / std::max(s_true, sqrtl(eps)); if (!(qdiff(R, E) <= ts)) fail("shortMix" + ty, std::string(cn[cls]) + ":shorter arc", in, "slerp along the shorter arc " + qs(glm::slerp(x, y, t)), qs(r)); } }
+		{ count("fastMix" + ty); auto r = glm::fastMix(x, y, t); Q4 R = toL(r); bool nan = !(R.w == R.w); LD bw = (1 - (LD)t) * X.w + (LD)t * Y.w, bx = (1 - (LD)t) * X.x + (LD)t * Y.x, by = (1 - (LD)t) * X.y + (LD)t * Y.y, bz = (1 - (LD)t) * X.z + (LD)t * Y.z, bn = sqrtl(bw * bw + bx * bx + by * by + bz * bz);
+		  if (bn > 1e-3L) { Q4 E2{bw / bn, bx / bn, by / bn, bz / bn}; if (nan || !(qdiff(R, E2) <= 256 * eps / bn)) fail("fastMix" + ty, cn[cls], in, "normalize(x (1 - a) + y a)", qs(r)); } }
 		if (it < 2) sample("C13 " + in);
 	}
 }
